@@ -4,6 +4,7 @@ from props.util import *
 rule = ("RSI, FAST (scalars and bars with low <= close <= high), SLOW, MFI in [0,100] and ER in [0,1], slack 1e-9 (MFI: 100*tau(t)*c, claimed for "
         "c <= 1000), at every step whose reference denominator is non-zero: regimes trending / oscillating / gapping / nearly flat / widely "
         "varying volume / periodic, periods 1..8 and sampled to 512, 60..2000 steps; all runs also compared bit-exactly with the float model. "
+        "Plus, for every indicator and periods {1,2,3,5,8}, a 1e9 gap followed by a monotone ramp (seed-independent). Every third case also runs as a copy with one reset() after the window has wrapped (the range holds for the whole life of an instance). "
         "Non-trivial: distinct case longer than twice the period")
 assumptions = ["steps with a zero reference denominator (flat window, zero flow) belong to C08 and are skipped here: detected from the "
                "implementation's own window (max == min; sum of |moves| == 0; no flow in the window)"]
@@ -31,7 +32,19 @@ def gen_cases(ctx):
                     feeds = sprinkle_serde(feeds, r)
                 cases.append(Case("%s_i%d_p%d_%d" % (ind, pi, p, rep), [new_op(0, ind, pr)] + feeds, dump=(),
                                   meta={"ind": ind, "p": p, "n": n, "style": st}))
-    return cases
+    # seed-independent: a huge gap followed by a long monotone ramp (a running volatility / flow sum that is never re-synchronised with
+    # its window keeps the rounding residue of the gap: ratios then leave their range once the window is monotone)
+    for ind in KINDS:
+        for p in (1, 2, 3, 5, 8):
+            xs = [1.3, 1e9, 1.3] + [1.31 + 0.01 * k for k in range(3 * p + 12)]
+            pr = (p, 3 if ind == "SLOW" else 0, 0, 0.0)
+            if ind == "MFI":
+                feeds = [("b", 0, x, x * 1.001, x * 0.999, x, 10.0) for x in xs]
+            else:
+                feeds = [("n", 0, x) for x in xs]
+            cases.append(Case("%s_gap_p%d" % (ind, p), [new_op(0, ind, pr)] + feeds, dump=(),
+                              meta={"ind": ind, "p": p, "n": len(xs), "style": "gapramp"}))
+    return sprinkle_resets(cases)
 
 
 def nontrivial(c):
@@ -52,6 +65,10 @@ def check_impl(ctx, cases):
         feeds = []          # the inputs fed so far (serde round-trips and other non-feeding ops are not inputs)
         flowmax = 0.0
         for o, ob in zip(allops, c.obs[1:]):
+            if o[0] == "r":          # reset: the instance starts a new life, the reference window too
+                feeds = []
+                flowmax = 0.0
+                continue
             v = f_of(ob)
             if v is None:
                 continue
